@@ -132,7 +132,7 @@ def check_case(case):
                                                'members': linked.get(name),
                                                'present': sorted(n for n in (linked.get(name) or []) if n in names),
                                                'all_members': linked.get(name)}))
-            if len(res.violations) > 5:
+            if len(res.violations) > 40:
                 break
     # direct setting on a graph
     g = b.dsg.copy()
